@@ -271,3 +271,32 @@ class annulus_to_mask_other_modes:
     pre = lambda self: circle_annulus_ok(self) if hasattr(self, 'inner_radius') else asym_annulus_ok(self)
     call = lambda self, mode: self.to_mask(mode=mode, subpixels=3)
     raises = {'NotImplementedError': lambda: True}
+
+
+# ---------------------------------------------------------------------------- masks follow later assignments (no stale state)
+def _mask_after_reassignment(self, mode, subpixels, c2, r2):
+    m0 = self.to_mask(mode, subpixels)
+    self.center = c2
+    self.radius = r2
+    return (m0, self.to_mask(mode, subpixels))
+
+
+@contract(CIRCLE + '.to_mask', props=['C02', 'C03', 'C13'])
+class circle_mask_follows_assignment:
+    cases = MODES
+
+    def setup(B, mode='center'):
+        from contracts.common import pix
+        return dict(self=circle(B, 'r'), mode=mode, subpixels=B.int('n'), c2=pix(B, 'c2'), r2=B.real('r2'))
+    pre = lambda self, mode, subpixels, r2: circle_ok(self) and sub_ok(mode, subpixels) and r2 > 0
+    call = lambda self, mode, subpixels, c2, r2: _mask_after_reassignment(self, mode, subpixels, c2, r2)
+    modifies = ('r',)
+    forall = {'i': 'int', 'j': 'int'}
+    post = {
+        'second_mask_describes_the_current_circle': lambda self, mode, subpixels, result, i, j:
+            carries_box(self, result[1]) and ((not in_grid(result[1], i, j)) or close_exact(
+                result[1].data[j, i],
+                frac('circle', result[1].bbox.ixmin + i - 0.5 - self.center.x, result[1].bbox.iymin + j - 0.5 - self.center.y, 1, 1,
+                     ux(mode), n_eff(mode, subpixels), self.radius), ux(mode))),
+        'masks_do_not_share_their_array': lambda result: result[0].data is not result[1].data,
+    }
